@@ -508,7 +508,7 @@ impl KindFn for BulkS<'_> {
     where
         Error: From<<K as TryFrom<Shape>>::Error>,
     {
-        let v = vec![K::build(self.1, Ctor::Plain), K::build(self.1, Ctor::Plain)];
+        let v = vec![build_any::<K>(self.1, Ctor::Plain), build_any::<K>(self.1, Ctor::Plain)];
         self.0.write_shapes(v.iter())
     }
 }
@@ -519,7 +519,7 @@ impl KindFn for BulkC<'_> {
     where
         Error: From<<K as TryFrom<Shape>>::Error>,
     {
-        let v = vec![K::build(self.1, Ctor::Plain), K::build(self.1, Ctor::Plain)];
+        let v = vec![build_any::<K>(self.1, Ctor::Plain), build_any::<K>(self.1, Ctor::Plain)];
         let r = vec![row(self.2), row(self.2 + 1)];
         self.0.write_shapes_and_records(v.iter().zip(r.iter()))
     }
@@ -535,7 +535,7 @@ impl KindFn for WriteOne<'_, SW> {
     where
         Error: From<<K as TryFrom<Shape>>::Error>,
     {
-        self.0 .0.write_shape(&K::build(self.1, Ctor::Plain))
+        self.0 .0.write_shape(&build_any::<K>(self.1, Ctor::Plain))
     }
 }
 impl KindFn for WriteOne<'_, CW> {
@@ -544,7 +544,7 @@ impl KindFn for WriteOne<'_, CW> {
     where
         Error: From<<K as TryFrom<Shape>>::Error>,
     {
-        self.0 .0.write_shape_and_record(&K::build(self.1, Ctor::Plain), &row(self.2))
+        self.0 .0.write_shape_and_record(&build_any::<K>(self.1, Ctor::Plain), &row(self.2))
     }
 }
 impl AnyWriter for SW {
@@ -871,15 +871,50 @@ impl EnumProp for OneType {
                             if tail != 0 && ops.len() + 1 > max_len {
                                 continue;
                             }
-                            pending.push(THist {
-                                first: *first,
-                                offered: *offered,
-                                writer,
-                                ops: ops.clone(),
-                                g_first: geoms[i].clone(),
-                                g_offered: geoms[j].clone(),
-                                tail,
-                            });
+                            // variant 0: generated shapes; 1: the offered shape holds no vertex at all (a value only reading
+                            // produces) or, for point types, NaN everywhere; 2: the FIRST shape has NaN for every coordinate
+                            for variant in 0..3u8 {
+                                if variant != 0 && ops.len() + 2 > max_len {
+                                    continue;
+                                }
+                                let mut g_first = geoms[i].clone();
+                                let mut g_offered = geoms[j].clone();
+                                let nan_all = |g: &mut Geom| {
+                                    let t = g.ty;
+                                    for p in g.parts.iter_mut() {
+                                        for v in p.pts.iter_mut() {
+                                            v[0] = F(f64::NAN.to_bits());
+                                            v[1] = F(f64::NAN.to_bits());
+                                            if t.has_z() {
+                                                v[2] = F(f64::NAN.to_bits());
+                                            }
+                                            if t.carries_m() {
+                                                v[3] = F(f64::NAN.to_bits());
+                                            }
+                                        }
+                                    }
+                                };
+                                match variant {
+                                    1 => {
+                                        if offered.family() == Family::Point {
+                                            nan_all(&mut g_offered);
+                                        } else {
+                                            g_offered = empty_geom(*offered);
+                                        }
+                                    }
+                                    2 => nan_all(&mut g_first),
+                                    _ => {}
+                                }
+                                pending.push(THist {
+                                    first: *first,
+                                    offered: *offered,
+                                    writer,
+                                    ops: ops.clone(),
+                                    g_first,
+                                    g_offered,
+                                    tail,
+                                });
+                            }
                         }
                     }
                 }
